@@ -27,7 +27,7 @@ RAW = {"openapi": "3.0.2", "info": {"title": "t", "version": "1"}, "paths": {
                         "responses": {
                             "201": {"description": "c", "links": {"get": {"operationId": "getUser", "parameters": {"id": "$response.body#/id", "path.id": "$response.body#/id"}},
                                                                    "patch": {"operationId": "patchUser", "parameters": {"id": "$response.body#/id", "query.v": "$request.query.q"},
-                                                                             "requestBody": {"name": "$response.body#/name", "fixed": 7, "n": {"k": "$request.header.X-H"}}}}},
+                                                                             "requestBody": {"name": "$response.body#/name", "fixed": 7, "n": {"k": "$request.header.X-H"}, "members": [{"id": "$response.body#/id"}, "lit"]}}}},
                             "4XX": {"description": "e", "links": {"again": {"operationId": "createUser", "parameters": {"q": "$statusCode"}}}},
                             "409": {"description": "conflict"},
                             "5xx": {"description": "down"},
@@ -197,9 +197,9 @@ def link_extraction(body_id: int, has_id: bool, name: str, qv: str, has_q: bool,
     if got_q is not want_q and got_q != want_q:
         return False
     extracted = lk.extract_body(out).value.ok()
-    if not has_h:
-        return extracted is UNRESOLVABLE  # a body with an unresolvable part is never sent half-filled
-    return extracted == {"name": name, "fixed": 7, "n": {"k": hv}}
+    if not has_h or not has_id:
+        return extracted is UNRESOLVABLE  # a body with an unresolvable part (at any depth, also below an array) is never sent half-filled
+    return extracted == {"name": name, "fixed": 7, "n": {"k": hv}, "members": [{"id": body_id}, "lit"]}
 
 
 
@@ -267,8 +267,8 @@ def derived_step(idx: int, has_id: bool, qv: str, has_q: bool, hv: str, has_h: b
         return "body" not in kwargs and step.case.path_parameters == want_path
     if kwargs.get("query", {}) != ({"v": qv} if has_q else {}):
         return False
-    expected = {"name": "n", "fixed": 7, "n": {"k": hv}}
-    if not has_h:
+    expected = {"name": "n", "fixed": 7, "n": {"k": hv}, "members": [{"id": body_id}, "lit"]}
+    if not has_h or not has_id:
         return "body" not in kwargs and not isinstance(step.case.body, dict)  # a body with an unresolvable part is never sent half-filled
     # the link's body reaches the derived case (handed to the generator, or merged into the generated body)
     return step.case.body == expected and ("body" not in kwargs or kwargs["body"] == expected)
